@@ -141,6 +141,11 @@ class PyInterp(Interp):
     def eval(self, n: ast.expr, env: dict):
         if isinstance(n, ast.Lambda):
             return ("closure", n, env)
+        if isinstance(n, ast.Attribute) and n.attr in ("start", "stop", "step"):
+            o = self.eval(n.value, env)
+            if isinstance(o, range):
+                return getattr(o, n.attr)
+            return self.getattr(o, n.attr, n)
         if isinstance(n, ast.Name) and n.id not in env and n.id not in ("True", "False", "None"):
             return self._global(n.id)
         if isinstance(n, ast.List):
@@ -303,7 +308,9 @@ def _universe(ctx: Ctx):
     cref = m.find_class("ColumnReference")
     crange = m.find_class("ColumnRangeLiteral")
     opaque_f = Obj(fn, name="f", args=(Obj(cref, tag="f", dtype=None),), supporting_engine_types=None)
-    opaque_c = Obj(inc, item=Obj(cref, tag="c", dtype=None), container=Obj(crange, value=("range", 0, 3, 1), dtype=None))
+    opaque_c = Obj(inc, item=Obj(cref, tag="c", dtype=None), container=Obj(crange, value=range(0, 3, 1), dtype=None))
+    # the same test against a descending (non-empty) range and against an empty one: both are still functions of the row
+    opaque_c_desc = Obj(inc, item=Obj(cref, tag="c", dtype=None), container=Obj(crange, value=range(5, 0, -1), dtype=None))
     # membership tests between literals have a definite value (by *value*: 4 is in [4, 5] whatever dtype the literals declare)
     clit = m.find_class("ColumnLiteral")
     cseq = m.find_class("ColumnExpressionSequence")
@@ -311,6 +318,9 @@ def _universe(ctx: Ctx):
     in_true = Obj(inc, item=lit4, container=Obj(cseq, items=(lit4i, lit5), dtype=None))
     in_true_same = Obj(inc, item=lit4, container=Obj(cseq, items=(lit5, lit4), dtype=None))
     in_false = Obj(inc, item=lit3, container=Obj(cseq, items=(lit4, lit5), dtype=None))
+    # comparisons of a column with itself are still functions of the row (NaN != NaN, NULL = NULL is not true)
+    a_ref = Obj(cref, tag="f", dtype=None)
+    self_cmp = [Obj(fn, name=nm, args=(a_ref, a_ref), supporting_engine_types=None) for nm in ("__eq__", "__ne__", "__lt__", "__le__")]
     core = [T, F, p, q]
     d1 = list(core)
     for x in core:
@@ -321,7 +331,7 @@ def _universe(ctx: Ctx):
             d1.append(Obj(cls, operands=(x,)))
         for x, y in itertools.product(core, repeat=2):
             d1.append(Obj(cls, operands=(x, y)))
-    trees = list(d1) + [opaque_f, opaque_c, in_true, in_true_same, in_false]
+    trees = list(d1) + self_cmp + [Obj(lnot, operand=self_cmp[0]), Obj(lor, operands=(self_cmp[0], p)), Obj(land, operands=(self_cmp[1], p))] + [opaque_f, opaque_c, opaque_c_desc, Obj(lnot, operand=opaque_c_desc), Obj(land, operands=(opaque_c_desc, p)), in_true, in_true_same, in_false]
     for x in (in_true, in_true_same, in_false):
         trees.append(Obj(lnot, operand=x))
         trees.append(Obj(land, operands=(x, p)))
